@@ -649,9 +649,83 @@ class MutatedParameters(Suite):
         return repr(case)
 
 
+WORKERS_SRC = """
+from concurrent.futures import ThreadPoolExecutor
+from pathlib import Path
+from taskchain import Task, Parameter
+
+class Busy(Task):               # logs from worker threads it starts, and keeps records that are not plain JSON
+    class Meta:
+        parameters = [Parameter('n')]
+    def run(self, n) -> dict:
+        self.logger.info('tok main before')
+        with ThreadPoolExecutor(2) as ex:
+            list(ex.map(lambda i: self.logger.info(f'tok worker {i}'), range(n)))
+        self.logger.info('tok main after')
+        self.save_to_run_info({0: 1, 1: 2})
+        self.save_to_run_info((n, 0.5))
+        self.save_to_run_info({'k': (1, 2), 'p': Path('/x')})
+        self.save_to_run_info({1: 'a', '1': 'b'})
+        return {'n': n}
+"""
+
+
+class WorkersAndRecords(Suite):
+    """a run that logs from worker threads it starts and keeps records that are not plain JSON (mappings keyed by numbers,
+    tuples, a Path, the keys 1 and '1' side by side): the log holds the messages of the workers too, and the records come
+    back as they were added - on the first run, after a forced recomputation, read from a new chain.  Runtime check only."""
+    name = 'worker_threads_and_records'
+    model = ''
+
+    def gen(self, rng, tier):
+        return [dict(n=n, hist=h) for n in (1, 3) for h in ('once', 'forced', 'new_chain')]
+
+    def run_impl(self, case):
+        import sys, types
+        from taskchain import Config
+        from .. import pipeline as pl
+        with pl.workspace(dict(classes=[], files={})) as (d, _):
+            name = 'tcv_workers'
+            m = types.ModuleType(name)
+            sys.modules[name] = m
+            try:
+                exec(compile(WORKERS_SRC, name, 'exec'), m.__dict__)
+                task = lambda: Config(Path('data'), name='c', data={'tasks': [f'{name}.Busy'], 'n': case['n']}).chain()['busy']
+                t = task()
+                _ = t.value
+                if case['hist'] == 'forced':
+                    t.force()
+                    _ = t.value
+                if case['hist'] == 'new_chain':
+                    t = task()
+                log = sorted(l.split(' - ')[-1].strip() for l in (t.log or []) if 'tok' in l)
+                return dict(log=log, records=repr((t.run_info or {}).get('log')))
+            finally:
+                sys.modules.pop(name, None)
+
+    def oracle(self, case, obs):
+        from pathlib import Path as P
+        if 'unexpected_exception' in obs:
+            return f'unexpected exception {obs["unexpected_exception"]}: {obs["text"]}'
+        n = case['n']
+        want_log = sorted(['tok main before', 'tok main after'] + [f'tok worker {i}' for i in range(n)])
+        if obs['log'] != want_log:
+            return f'{case}: the log holds {obs["log"]}; the run logged {want_log}'
+        want = repr([{0: 1, 1: 2}, (n, 0.5), {'k': (1, 2), 'p': P('/x')}, {1: 'a', '1': 'b'}])
+        if obs['records'] != want:
+            return f'{case}: the records are {obs["records"]}; the run added {want}'
+        return None
+
+    def nontrivial(self, case, obs):
+        return True
+
+    def key(self, case):
+        return repr(case)
+
+
 class C18(Prop):
     pid = 'C18'
-    suites = [Records(), RunBodies(), NamedConfigs(), ResumableLogs(), MutatedParameters()]
+    suites = [Records(), RunBodies(), NamedConfigs(), ResumableLogs(), MutatedParameters(), WorkersAndRecords()]
     assumptions = ['timestamps, user name, library version, class and module names are abstracted away',
                    'the framing lines of the log (run started / run ended) are abstracted: the messages logged by run '
                    'are the tokens']
